@@ -433,6 +433,36 @@ func c03Codec(c *h.Ctx, bucket string, p rtmp.Packet) {
 		c.Hold(cl2 == "ok" && len(again) == q.Size(), "marshal_len", din, fmt.Sprint(len(again)), fmt.Sprintf("Size()=%d", q.Size()))
 	}
 	c.Case(fmt.Sprintf("%s/%s,wf=%v", bucket, kind, wf), t, true)
+
+	// the packet goes on being used after it was measured and marshalled: a property of its command object is
+	// replaced by a value of another length, another one is added — Size() and MarshalBinary must describe the packet
+	// as it is now (an application fills in connect parameters step by step and logs sizes in between)
+	var objs []*amf0.Object
+	switch x := p.(type) {
+	case *rtmp.ConnectAppPacket:
+		objs = []*amf0.Object{x.CommandObject, x.Args}
+	case *rtmp.ConnectAppResPacket:
+		objs = []*amf0.Object{x.CommandObject, x.Args}
+	}
+	for oi, o := range objs {
+		if o == nil {
+			continue
+		}
+		props, _, _ := amf0.VerifProps(o)
+		key := "tcUrl"
+		if len(props) > 0 {
+			key = props[c.R.Intn(len(props))].Key
+		}
+		o.Set(key, amf0.NewString(strings.Repeat("v", 1+c.R.Intn(40))))
+		again, cl3 := c03Marshal(p)
+		c.Hold(cl3 == "ok" && len(again) == p.Size(), "marshal_len", in+" then Set("+key+", <other length>) on object "+fmt.Sprint(oi),
+			fmt.Sprint(len(again)), fmt.Sprintf("Size()=%d", p.Size()))
+		o.Set("added-"+fmt.Sprint(oi), amf0.NewNumber(float64(oi)))
+		o.Set(key, amf0.NewNull())
+		again, cl3 = c03Marshal(p)
+		c.Hold(cl3 == "ok" && len(again) == p.Size(), "marshal_len", in+" then Set("+key+", …), Set(added, …), Set("+key+", null) on object "+fmt.Sprint(oi),
+			fmt.Sprint(len(again)), fmt.Sprintf("Size()=%d", p.Size()))
+	}
 }
 
 // ---------- dispatch ----------
@@ -1169,6 +1199,36 @@ func c03(c *h.Ctx) {
 			}
 		}
 		c.Case(fmt.Sprintf("burst/outstanding=%d..%d", len(tids)/32*32, len(tids)/32*32+31), fmt.Sprintf("burst n=%d", len(tids)), true)
+	}
+
+	// 6c. large packets behind a large chunk size: Set Chunk Size above the reader's own buffer sizes, then a connect
+	// whose command object makes the payload cross them, then an ordinary request that must still arrive
+	for _, cs := range []int{128, 4095, 4096, 4097, 5000, 60000} {
+		for _, L := range []int{100, 4000, 4096, 4200, 9000, 20000} {
+			if !c.Thorough() && (cs+L)%3 == 0 {
+				continue
+			}
+			a, b := c03Pair()
+			sc := rtmp.NewSetChunkSize()
+			sc.ChunkSize = uint32(cs)
+			who := fmt.Sprintf("large cs=%d payload~%d", cs, L)
+			if !a.send(c, sc, 0, who+" setChunkSize") {
+				continue
+			}
+			b.recv(c, sc, 0, who+" setChunkSize")
+			x := rtmp.NewConnectAppPacket()
+			x.CommandObject.Set("app", amf0.NewString("live"))
+			x.CommandObject.Set("tcUrl", amf0.NewString(strings.Repeat("u", L)))
+			if a.send(c, x, 0, who+" connect") {
+				b.recv(c, x, 0, who+" connect")
+			}
+			y := rtmp.NewCreateStreamPacket()
+			y.TransactionID = 2
+			if a.send(c, y, 0, who+" createStream") {
+				b.recv(c, y, 0, who+" createStream")
+			}
+			c.Case(fmt.Sprintf("large/cs=%d", cs), who, true)
+		}
 	}
 
 	// 7. typed waits: A writes a run of packets, B waits for a kind (ExpectPacket) or for message types (ExpectMessage).
